@@ -51,7 +51,11 @@ def gen_case(rng, k):
             extra += "EXDATE:" + evgen.fmt_dt(meta["dtstart"], z=not meta["is_date"]) + "\n"
         if rng.random() < 0.4:
             extra += "RDATE:" + ",".join(evgen.fmt_dt(meta["dtstart"], z=not meta["is_date"]) for _ in range(rng.randint(1, 4))) + "\n"
-        return text.replace("END:VEVENT", extra + "END:VEVENT"), "exceptions"
+        # an exception rule that ticks much faster than the rule it is applied to is a stratum of its own: the filter walks
+        # the exception stream event by event (listed finding)
+        fx = x.split(";")[0].split("=")[1]
+        fine = fx in ("SECONDLY", "MINUTELY")
+        return text.replace("END:VEVENT", extra + "END:VEVENT"), ("exceptions/exrule-" + fx.lower() if fine else "exceptions")
     return text, "full-language"
 
 
